@@ -9,6 +9,8 @@ package main
 // else equal) that yield the same sign bytes are a collision.
 
 import (
+	"crypto/sha256"
+	"crypto/sha512"
 	"encoding/hex"
 	"reflect"
 	"unicode/utf8"
@@ -226,6 +228,25 @@ func genSignCases(r *RNG, thorough bool) []string {
 			for _, fp := range []string{"", C} {
 				one(joinSp("aol.AddRecord", toks("t"), toks(k), toks(v), toks(B), toks(A), toks(fp)))
 			}
+		}
+	}
+	// long byte / text fields around the thresholds at which a signer implementation might shorten, digest or truncate what
+	// it displays — together with the digests and truncations themselves, so that "long value signed as its digest" shows
+	// up as a collision between two different messages
+	for _, n := range []int{255, 256, 1023, 1024, 1025, 4096, 5000} {
+		v := strings.Repeat("v", n-1) + "w"
+		variants := []string{v}
+		if n > 256 {
+			h256 := sha256.Sum256([]byte(v))
+			h512 := sha512.Sum512([]byte(v))
+			variants = append(variants, string(h256[:]), string(h512[:]), hex.EncodeToString(h256[:]), v[:32], v[:64], v[:256], v[:1024%len(v)])
+		}
+		for _, vv := range variants {
+			one(joinSp("aol.AddRecord", toks("t"), toks("k"), toks(vv), toks(B), toks(A), toks("")))
+		}
+		if n <= 5000 {
+			one(joinSp("aol.CreateTopic", toks("t"), toks(v), toks(A)))
+			one(joinSp("pnft.Mint", toks("d1"), toks("t1"), toks("n"), toks(v), toks(""), toks(""), toks(v), toks(A)))
 		}
 	}
 	// DID
